@@ -69,8 +69,35 @@ def run(tier, seed):
             j = r.choice([1, 2, 4, 8, 16])
             sc.env["SY_VERIF_DELTA_THRESHOLD"] = str(ew.BIG)
             want = inode_classes(world.snapshot(src))
-            for phase in ("create", "rerun", "update"):
+            for phase in ("create", "rerun", "update", "unlink"):
+                if phase == "unlink":
+                    # a group falls apart in the source: one member becomes a file of its own (other bytes), the first member changes too.
+                    # The destination members must stop sharing an inode with it, and each must hold its own source's bytes
+                    members = [e for e in spec if e["k"] == "h"]
+                    if not members:
+                        break
+                    m = members[0]
+                    mp, fp = os.path.join(src, m["p"]), os.path.join(src, m["to"])
+                    os.remove(mp)
+                    with open(mp, "wb") as f:
+                        f.write(b"a file of its own now " + bytes([i % 251]) * (os.path.getsize(fp) % 5000 + 1))
+                    os.utime(mp, ns=((world.T0 + 9500) * 10**9,) * 2)
+                    with open(fp, "r+b") as f:
+                        f.seek(0); f.write(b"FIRST!!!!")
+                    os.utime(fp, ns=((world.T0 + 9600) * 10**9,) * 2)
+                    want = inode_classes(world.snapshot(src))
+                snap = None
                 if phase == "update":
+                    # a snapshot of one plain destination file made with cp -al (a second name of its inode): the update of the file
+                    # must leave the snapshot's bytes alone
+                    plains = [e for e in spec if e["k"] == "f" and e["p"].startswith("plain") and os.path.isfile(os.path.join(dst, e["p"]))]
+                    if plains:
+                        pe = plains[0]
+                        snap = (os.path.join(dst, pe["p"] + ".snap"), world.sha(os.path.join(dst, pe["p"])))
+                        os.link(os.path.join(dst, pe["p"]), snap[0])
+                        with open(os.path.join(src, pe["p"]), "ab") as f:
+                            f.write(b"appended after the snapshot")
+                        os.utime(os.path.join(src, pe["p"]), ns=((world.T0 + 9100) * 10**9,) * 2)
                     # rewrite one member of every group through its first path (all links see it)
                     for e in spec:
                         if e["k"] == "f" and not e["p"].startswith("plain"):
@@ -84,6 +111,10 @@ def run(tier, seed):
                         break
                     viol.append({"world": i, "phase": phase, "j": j, "why": "sy -H did not terminate within 25 s", "klass": None, "spec": [(e["p"], e["k"], e.get("to")) for e in spec]})
                     break
+                if snap is not None:
+                    if world.sha(snap[0]) != snap[1]:
+                        viol.append({"world": i, "phase": phase, "j": j, "why": "a second name (cp -al snapshot) of an updated destination file changed with it: the file was rewritten in place", "klass": None})
+                    os.remove(snap[0])
                 s_snap, d_snap = world.snapshot(src), world.snapshot(dst)
                 got = inode_classes(d_snap)
                 bad_content = [rel for rel, e in s_snap.items() if e["kind"] == "f" and (d_snap.get(rel) or {}).get("sha") != e["sha"]]
